@@ -19,8 +19,14 @@
       a Get that waited on the same value is then served that revision, while the loading Get returned
       the error.  (On the real code the waiting Get is woken before the parked Put -- sync.RWMutex hands the
       lock to blocked readers first -- and returns the error, as the step-level cases show; a Get arriving
-      after the store is served the stored revision.)  Not a defect: the Put carries what storage now holds. *)
-From SG Require Import Base.Prelude C16.RevCache C16.RevCacheProofs C16.RevCacheConc C16.RevCacheStep.
+      after the store is served the stored revision.)  Not a defect: the Put carries what storage now holds.
+
+   4. unchanged_cv_by_revid_incoherent: why DocChanged must drop the CV key for an UnchangedCV event.  A rule that
+      drops the current revTreeID key instead (for user-xattr AND UnchangedCV events) is not sound: node 1 caches
+      the CV key, node 0 resolves a conflict as local wins (same CV, longer HLV history, new revTreeID), node 1
+      processes the feed and keeps serving the pre-resolution revision under the CV for ever.
+      (Not the code as found: its rule is C16_docchanged_invalidation_sound.) *)
+From SG Require Import Base.Prelude C16.RevCache C16.RevCacheProofs C16.RevCacheConc C16.RevCacheStep C16.RevCacheCoherence.
 Open Scope Z_scope.
 
 Definition leak_schedule : list cact :=
@@ -68,4 +74,18 @@ Proof.
   split; [vm_compute; reflexivity|].
   split; [left; reflexivity|]. split; [right; left; reflexivity|].
   split; [reflexivity|]. split; [discriminate | reflexivity].
+Qed.
+
+Definition revid_only_inval (e : ev) (k : ckey) : bool :=
+  (e_ux e || e_uc e) && keqb k (mkK (e_doc e) false (e_rev e)).
+
+Theorem C16_unchanged_cv_by_revid_incoherent :
+  exists ops s n k c,
+    hrun revid_only_inval hinit ops = Some s /\ hqueue s n = [] /\
+    hcache s n k = Some c /\ current s k = true /\ c <> content_of s k.
+Proof.
+  exists [OMut 0 false (MWrite 1 10 20 100 200); ODeliver 0; ODeliver 1; OGet 1 (mkK 1 true 20) None;
+          OMut 0 false (MLocalWins 1 11 101 201); ODeliver 0; ODeliver 1]%N.
+  eexists. exists 1%nat, (mkK 1 true 20), 200%N.
+  split; [vm_compute; reflexivity|]. repeat split; try reflexivity. vm_compute. discriminate.
 Qed.
